@@ -58,9 +58,9 @@ CLAIMED.update({
 
 CLAIMED.update({
     "C01": (
-        "property-based differential testing against a reference semantics: generated programs x HT interpretations; oracle = independent mini-gringo semantics (ground instances, partial division, intervals) vs exact HT evaluation of the tau* formulas; plus stable models vs equilibrium models on small universes",
-        "Exploration: per rule, (H,T) satisfies the tau* formula iff it satisfies every ground instance by the reference semantics, for generated programs with every head/body shape, operator nesting, fresh-name-colliding variables and arithmetic corner classes; the consequence (stable = equilibrium models with extra facts) is checked exhaustively over all candidate J and all H below J for small universes.",
-        "Trusted: reference semantics (floor division for positive divisors, as tau_star.rs documents), exact evaluator; finite extents; definite verdicts only.",
+        "property-based differential testing against a reference semantics: generated programs x HT interpretations; oracle = independent mini-gringo semantics (ground instances, partial division, intervals) vs exact HT evaluation of the tau* formulas; plus stable models vs equilibrium models on small universes; plus program text in conventional notation (checker's own minimal-parentheses printer) vs the tree anthem reads, and the CLI translation vs the library's",
+        "Exploration: per rule, (H,T) satisfies the tau* formula iff it satisfies every ground instance by the reference semantics, for generated programs with every head/body shape, operator nesting, fresh-name-colliding variables and arithmetic corner classes; the consequence (stable = equilibrium models with extra facts) is checked exhaustively over all candidate J and all H below J for small universes; the parser reads conventionally written program text as the program it denotes and `anthem translate --with tau-star` prints the library's theory for it.",
+        "Trusted: reference semantics (floor division for positive divisors, as tau_star.rs documents), exact evaluator; finite extents; definite verdicts only; the usual reading of arithmetic notation (unary minus > * / \\ > + - > .., left-associative).",
         "4/C01",
     ),
     "C03": (
@@ -82,7 +82,7 @@ CLAIMED.update({
         "4/C08",
     ),
     "C09": (
-        "property-based testing with a strict independent TFF reader and type checker as oracle over every problem of generated strong/external tasks x flags; known-finding shapes in a separate tolerated campaign",
+        "property-based testing with a strict independent TFF reader and type checker as oracle over every problem of generated strong/external tasks x flags; known-finding shapes in a separate tolerated campaign; syntax differential of a sample of problems against tptp4X",
         "Exploration: each emitted problem must be valid typed TFF: words, unique names, one declaration and type per identifier, declared before use, typed quantifiers, one conjecture. Tricky-but-handled identifier shapes are in the main campaign; the recorded name-mangling defects are confirmed on recorded inputs and tolerated by narrow signature only.",
         "Trusted: the checker's TFF reader/type checker (syntax acceptance cross-checked against tptp4X).",
         "4/C09",
@@ -109,7 +109,7 @@ CLAIMED.update({
         "4/C02",
     ),
     "C10": (
-        "property-based fault injection through the real binary: generated tasks x generated prover plans (13 outcome kinds, delays, 0-8 instances, missing executable, prover that exits without reading) with a stand-in vampire that records its stdin; oracle = plan-derived expected verdict, exact multiset equality of handed-over and saved problem texts, per-problem status lines",
+        "property-based fault injection through the real binary: generated strong tasks and external tasks with proof outlines x generated prover plans (13 outcome kinds, delays, 0-8 instances, missing executable, prover that exits without reading) with a stand-in vampire that records its stdin; oracle = plan-derived expected verdict, exact multiset equality of handed-over and saved problem texts, per-problem status lines",
         "Exploration: Success iff every planned outcome prints SZS status Theorem, every problem handed over exactly once byte-identical to the saved file, distinct names, status lines match the plan, exit status 0; half of the plans have zero or exactly one non-Theorem outcome at a generated position.",
         "Trusted: the stand-in prover; completion orders are induced by delays and instance counts under the OS scheduler (the harness does not own the interleaving).",
         "4/C10 and 7",
